@@ -123,6 +123,11 @@ def handle (args : List String) : String :=
     | "pipe" =>
       pipe { qm := pShapeD (g "qm"), heads := pNat (g "heads"), qProj := g "q_proj", kb := pBool (g "kb"),
              vb := pBool (g "vb"), s := pFloat (g "s"), sdpaScale := pOptFloat (g "sdpa_scale"), mask := pBool (g "mask"), mask1d := pBool (g "mask1d") }
+    | "shapeopt" =>
+      shapeopt { nSliceInputs := pNat (g "n_in"), start := pInt (g "start"), stop := pInt (g "end"),
+                 startConst := pBool (g "start_const"), allowzero := pOptInt (g "allowzero"), perm := pInts (g "perm"),
+                 shapeStart := pOptInt (g "shape_start"), shapeEnd := pOptInt (g "shape_end"),
+                 dimsKnown := pBool (g "dims_known") }
     | _ => "ERR:family"
 
 end OV.Drivers.C19
